@@ -201,6 +201,21 @@ def check_scan_step(ck, prog):
             ln, ix = ctx.prov.operand(t["ops"][0], at), ctx.prov.operand(t["ops"][1], at)
             if "p1" in canon(ln) and "p2" not in canon(ln):
                 idxs.append((b["id"], ix))
+    # ... or the positions are handed out by the haystack's own slice iterator (`for (i, b) in this_buf.iter().enumerate()`), which
+    # visits every position in order; any adaptor that skips or reorders (step_by, skip, rev, filter ..) does not qualify
+    PLAIN = ("<impl [T]>::iter", "Iterator::enumerate", "IntoIterator::into_iter", "Iterator::by_ref")
+    by_iter = []
+    for bb, t in cfg.calls(lambda t: (t.get("callee") or "").endswith("Iterator::next")):
+        if not cfg.in_cycle(bb):
+            continue
+        chain = [x for x in walk_deep(ctx.args(bb)[0], ctx.prov) if x[0] == "call"]
+        over_hay = any((x[1] or "").endswith("<impl [T]>::iter") and "p1" in canon(x[2][0]) and "p2" not in canon(x[2][0]) for x in chain)
+        if over_hay and all((x[1] or "").endswith(PLAIN) for x in chain):
+            by_iter.append(bb)
+    if not idxs and by_iter:
+        ck.ob("C11.5", "anchor|haystack-index", True, fn=fn["path"], detail="positions come from the haystack's slice iterator")
+        ck.ob("C11.5", "scan-advances-one-position-at-a-time", True, fn=fn["path"], site=ctx.site(by_iter[0]), detail="positions are delivered by the haystack's own iterator, one at a time")
+        return
     ck.ob("C11.5", "anchor|haystack-index", len(idxs) >= 1, fn=fn["path"], detail="no indexed access of the haystack found")
     for bb, ix in idxs[:1]:
         ixs = strip_casts(ix)
@@ -294,6 +309,7 @@ def check_join_separators(ck, prog):
                 continue
             pushes = sum(1 for b in blocks if cfg.term(b)["k"] == "call" and (cfg.term(b).get("callee") or "").endswith("Vec::<T, A>::push") and fold(ctx.args(b)[1]) == 47)
             skips = 0
+            skip_is_E = False
             for idx, b in enumerate(blocks):
                 if b not in ext:
                     continue
@@ -305,9 +321,28 @@ def check_join_separators(ck, prog):
                         if v is None and isinstance(strip_casts(st), tuple) and strip_casts(st)[0] == "var":
                             pv = path_local_value(ctx, edges[:idx], strip_casts(st)[1])
                             v = fold(pv) if pv is not None else None
+                        if v is None:
+                            # branch-free form: the number of bytes skipped IS the truth value of "the extension starts with '/'"
+                            # (`usize::from(ext.first() == Some(&b'/'))`): the skip cancels the extension's own slash
+                            sx = strip_casts(st)
+                            if isinstance(sx, tuple) and sx[0] == "var":
+                                pv = path_local_value(ctx, edges[:idx], sx[1])
+                                sx = strip_casts(pv) if pv is not None else sx
+                            if isinstance(sx, tuple) and sx[0] == "call" and (sx[1] or "").endswith(("From<bool>>::from", "From::from")) and sx[2]:
+                                sx = strip_casts(sx[2][0])
+                            if isinstance(sx, tuple) and sx[0] == "call" and (sx[1] or "").endswith(("PartialEq::eq", "PartialEq>::eq")) and \
+                                    mentions(sx, ctx.prov, lambda z: z[0] == "call" and (z[1] or "").endswith("::first")) and \
+                                    any(is_slash(w) or (isinstance(w, tuple) and w and w[0] == "const" and ((len(w) > 4 and w[4] is not None and tuple(w[4]) == (47,)) or (len(w) > 5 and any(tuple(mem[:1]) == (47,) for off, mem in w[5]))))
+                                        for a2 in sx[2] for w in walk_deep(a2, ctx.prov, limit=40)):
+                                skip_is_E = True
+                                continue
                         if v is None or v >= 1:
                             skips += 1 if v == 1 else 99
             n_checked += 1
+            if skip_is_E and B is not None:
+                if int(B) + pushes - skips != 1 or len(ext) != 1:
+                    bad.append(f"base ends with '/': {B}, the extension's own leading '/' is skipped, '/' pushed: {pushes}, further skipped: {skips}, appends: {len(ext)} -> {int(B) + pushes - skips} separator(s) at the boundary")
+                continue
             if B is None or E is None:
                 bad.append(f"a path appends the extension without having tested {'the base' if B is None else 'the extension'} for a slash at the boundary (base={B}, ext={E}, pushed={pushes}, skipped={skips})")
             elif int(B) + int(E) + pushes - skips != 1 or len(ext) != 1:
@@ -358,6 +393,17 @@ def check_ends_with(ck, prog):
                     subj = f[3] if fold(f[2]) == 0 else f[2]
                     if any(canon(strip_casts(subj)) == canon(strip_casts(ix)) for ix in idx_exprs):
                         good.add((e.src, e.dst))
+                if f[0] == "cmp" and f[1] == "Eq":
+                    # the same equation spelled differently: A == B with A - B = +-(needle index), e.g. `ind + 1 == other.0.len()`
+                    LA, LB = lin.of(f[2]), lin.of(f[3])
+                    if LA is not None and LB is not None:
+                        D = Lin._add(LA, LB, -1)
+                        Dn = ({t: -c for t, c in D[0].items()}, -D[1])
+                        clean = lambda L: ({t: c for t, c in L[0].items() if c != 0}, L[1])  # noqa: E731
+                        for ix in idx_exprs:
+                            I = lin.of(ix)
+                            if I is not None and I[0] and clean(I) in (clean(D), clean(Dn)):
+                                good.add((e.src, e.dst))
                 if f[0] == "variant" and f[2] == "None" and mentions(f[1], ctx.prov, lambda z: z[0] == "call" and (z[1] or "").endswith("<impl [T]>::get") and mentions(z[2][0], ctx.prov, lambda w: w[0] == "param")):
                     good.add((e.src, e.dst))
                 if f[0] == "cmp" and f[1] in ("Ge", "Gt") and isinstance(strip_casts(f[2]), tuple) and strip_casts(f[2])[0] == "var":
